@@ -82,6 +82,7 @@ def run(ctx):
                 nw += 1
                 taint = tainted_in_loop(rr, blocks, {w.dest[0]})
                 accumulated = False
+                carried = []
                 overwritten = []
                 for c in rr.calls():
                     if c.bb in blocks and any(a[0] in ("c", "m") and a[1][0] in taint for a in c.args):
@@ -97,6 +98,8 @@ def run(ctx):
                 for loc in taint:
                     if loc == w.dest[0]:
                         continue
+                    if rr.locals[loc].startswith("std::ops::ControlFlow") or rr.locals[loc].startswith("std::result::Result<std::convert::Infallible"):
+                        continue        # the temporaries of `?`: they carry the *error* out of the loop, not a status
                     read_after = False
                     for bb in after:
                         b = rr.blocks[bb]
@@ -121,12 +124,17 @@ def run(ctx):
                         self_dep = loc in rr.derived_from(loc)["locals"] - {loc} if False else False
                         if not guarded:
                             overwritten.append((loc, bb))
-                ok = accumulated or not overwritten
-                if not accumulated and not overwritten:
-                    ok = False
-                    why = "status neither accumulated nor carried out of the loop"
+                    if defs_in and not any(l == loc for (l, _) in overwritten):
+                        carried.append(loc)     # written only on the failure edge of success(), read after the loop
+                ok = accumulated or (bool(carried) and not overwritten)
+                if accumulated:
+                    why = "pushed into a collection"
+                elif overwritten:
+                    why = "overwrites local _%d each iteration" % overwritten[0][0]
+                elif carried:
+                    why = "kept in local _%d, assigned only where success() answered false" % carried[0]
                 else:
-                    why = "pushed into a collection" if accumulated else "overwrites local _%d each iteration" % overwritten[0][0]
+                    why = "status neither accumulated nor carried out of the loop"
                 r.instance(A, "run_rustfmt: status of %s in loop" % short(w.name), "ok" if ok else "violation", w.loc(), why)
                 if not ok:
                     r.violation(A, "run_rustfmt: exit status of an earlier rustfmt invocation is not kept",
@@ -143,6 +151,15 @@ def run(ctx):
         gt = [c for c in fc.calls() if c.name == "cargo_fmt::get_targets"]
         rn = [c for c in fc.calls() if c.name == "cargo_fmt::run_rustfmt"]
         ok = False
+        if len(gt) == 1 and not rn:
+            # `get_targets(..).and_then(|targets| run_rustfmt(&targets, ..))`: the closure runs on the Ok value only
+            for c2 in fc.calls():
+                if c2.name.rsplit("::", 1)[-1] in ("and_then", "map") and "Result" in c2.name and c2.args and c2.args[0][0] != "k" \
+                        and gt[0] in fc.derived_from(c2.args[0][1][0])["calls"]:
+                    for x in c2.refs:
+                        h = p.fns.get(x)
+                        if h is not None and any(d.name == "cargo_fmt::run_rustfmt" for d in h.calls()):
+                            ok = True
         if len(gt) == 1 and rn:
             for e in result_edges(fc, gt[0]):
                 ok = e["ok"] is not None and all(edge_dominates(fc, (e["sw"], e["ok"]), c.bb) for c in rn) and \
